@@ -228,7 +228,7 @@ Definition case_good (c : case) : Prop :=
   /\ (forall t0 t1, m_construct (k_sch c) (k_a0 c) = Some t0 -> m_construct (k_sch c) (k_a1 c) = Some t1 ->
        run_good (k_sch c) (k_sch c) t0 t1 (k_prog c))
   (* the case is outside the open finding: no single-row index while a ragged column is an unmaterialised view *)
-  /\ lazy_pred (map (fun _ => false) (k_sch c)) (k_prog c) (k_steps c) = step_errs (k_steps c).
+  /\ lazy_pred (map (fun _ => false) (k_sch c)) (obs_cols (k_t0 c)) (k_prog c) (k_steps c) = step_errs (k_steps c).
 
 Theorem model_ok_spec_ok c : case_good c -> model_ok c = true -> spec_ok c = true.
 Proof.
